@@ -19,7 +19,7 @@ RULE = ("Generated: tensor_factorizations.cp / tucker (shape 2..4 modes of size 
         "pgms.hmm (any permutation as ordering, latent states 1..3, categorical / binomial / Gaussian inputs, "
         "per-variable input_layer_kwargs with DIFFERENT arguments per variable) and pgms.fully_factorized likewise; "
         "logic circuits: deterministic decomposable formulas on a drawn vtree (decision nodes whose primes are an "
-        "exclusive and exhaustive family, arbitrary subs, TOP / BOTTOM leaves, (p and TOP) also compressed to p, disjunctions nested directly in disjunctions over more variables, 10% untrimmed), given as LogicalCircuit "
+        "exclusive and exhaustive family, arbitrary subs, TOP / BOTTOM leaves, (p and TOP) also compressed to p, disjunctions nested directly in disjunctions over more variables, 10% untrimmed, 25% of the formulas over >= 3 variables with one variable that occurs only in a branch (lit and (lit and BOTTOM)) removed by unit propagation; the circuit scope must equal the variables of the formula so that the integral is its model count), given as LogicalCircuit "
         "node graphs and as .sdd text through SDD.load; x fold x optimize x semiring x values. Oracle: the documented "
         "formula coded independently with numpy (einsum CP / Tucker contraction, left-to-right TT matrix chain, "
         "forward algorithm along the ordering, product of per-variable pmfs, a recursive truth-table evaluator and "
@@ -175,7 +175,15 @@ def _case(draw, tier):
         nv = draw(st.integers(2, 5 if big else 4))
         c["nv"] = nv
         c["trimmed"] = draw(st.integers(0, 9)) != 0
-        c["formula"] = _formula(draw, list(draw(st.permutations(list(range(nv))))), draw(st.integers(1, 3)), c["trimmed"])
+        vs = list(draw(st.permutations(list(range(nv)))))
+        dead = nv >= 3 and draw(st.integers(0, 3)) == 0
+        c["formula"] = _formula(draw, vs[:-1] if dead else vs, draw(st.integers(1, 3)), c["trimmed"])
+        if dead:
+            # a variable that occurs only in a branch that unit propagation removes: (lit and (lit_d and BOTTOM));
+            # it still is a variable of the formula, so it must be counted by the model count
+            c["formula"] = c["formula"] + [["and", ["lit", vs[0], draw(st.booleans())],
+                                            ["and", ["lit", vs[-1], draw(st.booleans())], ["bot"]]]]
+        c["dead_var"] = bool(dead)
         c["semiring"] = "sum-product"
     else:
         nv = draw(st.integers(1, 5 if big else 4))
@@ -415,6 +423,12 @@ def _to_nodes(f, memo, in_nodes):
     return node
 
 
+def _fvars(g):
+    if g[0] == "lit":
+        return {g[1]}
+    return set().union(*[_fvars(h) for h in g[1:]]) if len(g) > 1 else set()
+
+
 def _run_logic(c):
     import cirkit.symbolic.functional as SF
     from cirkit.templates import logic as LG
@@ -462,7 +476,12 @@ def _run_logic(c):
         i = int(np.argmax(bad))
         raise Violation("truth-table", sig + "truth-value", f"assignment {X[i].astype(int).tolist()}: circuit {got[i]} "
                         f"formula {exp[i]}")
-    # model count over the circuit's own variables
+    # the circuit ranges over the variables of the formula (also those that occur only in pruned branches), so
+    # that its integral is the model count of the formula
+    fvars = _fvars(f)
+    if c["kind"] == "logic" and set(scope) != fvars:
+        raise Violation("logic-scope", sig + "scope-differs-from-formula-variables",
+                        f"circuit scope {scope}, variables of the formula {sorted(fvars)}")
     proj = {}
     for x, t in truth.items():
         proj.setdefault(tuple(x[v] for v in scope), set()).add(t)
@@ -506,6 +525,8 @@ def _run_logic(c):
         return any(nested_or(h) for h in g[1:])
 
     classes = [f"kind:{c['kind']}", f"nv:{nv}", f"trimmed:{c['trimmed']}", f"scope-size:{len(scope)}"]
+    if c.get("dead_var"):
+        classes.append("variable-only-in-pruned-branch")
     if nested_or(f):
         classes.append("or-input-of-or-with-smaller-scope")
     if has_const(f):
